@@ -94,6 +94,12 @@ def generate(rng, tier):
             if "/" in rel:
                 tree.setdefault(rel.split("/")[0], {"t": "d"})
             tree.setdefault(rel, {"t": "f", "c": gen.unique_content(rng)})
+    same_named = None
+    if "cache/" in pats and rng.random() < 0.7:
+        # a regular file that carries the name of an ignored FOLDER: a directory-only pattern does not apply to it
+        tree.setdefault("tools", {"t": "d"})
+        tree["tools/cache"] = {"t": "f", "c": gen.unique_content(rng)}
+        same_named = "tools/cache"
     if rng.random() < 0.06:
         # degenerate sealed trees: no file at all, only directories, or everything ignored
         k = rng.randrange(3)
@@ -174,6 +180,8 @@ def generate(rng, tier):
         elif pats:
             p = rng.choice(pats)
             muts.append({"op": "append", "path": IGNORABLE[p], "c": {"text": "zz"}, "fault": "edit_ignored_file"})
+    if same_named and same_named in state and rng.random() < 0.6:
+        muts.append({"op": "remove", "path": same_named, "fault": "remove_file"})
     judge = {"v": rng.random() < 0.3, "i": []}
     if rng.random() < 0.15:
         # patterns given at verification time only: recorded entries they match are out of the judgement altogether
